@@ -75,6 +75,7 @@ func (r *Run) reflectCall(st *State, fr *Frame, name string, recv Val, args []Va
 		r.afterCall(st, fr, name, args, v, sig, in)
 		return nil
 	}
+	st.assume(Eq(App(SInt, e.namedFun("rt_kind", []Sort{SAny}, SInt), NilOf(SAny)), IntLit(0)))
 	uf := func(fn string, res Sort, a ...T) T {
 		var so []Sort
 		for _, x := range a {
@@ -82,31 +83,194 @@ func (r *Run) reflectCall(st *State, fr *Frame, name string, recv Val, args []Va
 		}
 		return App(res, e.namedFun(fn, so, res), a...)
 	}
+	typ := func(v Val) T { return e.asTerm(v, SAny) }
+	kindOf := func(t T) T { return uf("rt_kind", SInt, t) }
+	nilable := func(k T) T {
+		var ds []T
+		for _, c := range []int64{18, 19, 20, 21, 22, 23, 26} {
+			ds = append(ds, Eq(k, IntLit(c)))
+		}
+		return Or(ds...)
+	}
+	vkind := func(v T) T { return Ite(uf("rv_valid", SBool, v), kindOf(uf("rv_type", SAny, v)), IntLit(0)) }
+	safe := func(kind string, goal T, what string) {
+		e.safety(st, fr, in, "reflect."+kind, goal, what+" at "+e.posOf(in))
+		st.assume(goal)
+	}
+	intRes := func(t T) Val { return r.fromInt(t, types.Typ[types.Int]) }
 	switch name {
+	// ------------------------------------------------------------ package functions
+	case "reflect.TypeOf":
+		x := e.asTerm(args[0], SAny)
+		t := uf("rt_of", SAny, x)
+		st.assume(Eq(Eq(t, NilOf(SAny)), Eq(x, NilOf(SAny))))
+		return done(t)
 	case "reflect.ValueOf":
 		x := e.asTerm(args[0], SAny)
 		v := uf("rv_of", vs, x)
 		st.assume(Eq(uf("rv_iface", SAny, v), x))
 		st.assume(Eq(uf("rv_valid", SBool, v), Not(Eq(x, NilOf(SAny)))))
+		st.assume(Eq(uf("rv_type", SAny, v), uf("rt_of", SAny, x)))
+		st.assume(Eq(Eq(uf("rt_of", SAny, x), NilOf(SAny)), Eq(x, NilOf(SAny))))
+		st.assume(Not(uf("rv_canset", SBool, v)))
 		return done(v)
+	case "reflect.New":
+		t := typ(args[0])
+		safe("New", Not(Eq(t, NilOf(SAny))), "reflect.New of a non-nil Type")
+		v := e.freshConst("rv_new", vs)
+		pt := uf("rt_ptrto", SAny, t)
+		st.assume(uf("rv_valid", SBool, v))
+		st.assume(Eq(uf("rv_type", SAny, v), pt))
+		st.assume(Not(Eq(pt, NilOf(SAny))))
+		st.assume(Eq(kindOf(pt), IntLit(22)))
+		st.assume(Eq(uf("rt_elem", SAny, pt), t))
+		st.assume(Not(uf("rv_isnil", SBool, v)))
+		return done(v)
+	case "reflect.MakeFunc":
+		t := typ(args[0])
+		safe("MakeFunc", And(Not(Eq(t, NilOf(SAny))), Eq(kindOf(t), IntLit(19))), "reflect.MakeFunc of a func Type")
+		v := e.freshConst("rv_makefunc", vs)
+		st.assume(uf("rv_valid", SBool, v))
+		st.assume(Eq(uf("rv_type", SAny, v), t))
+		st.assume(Not(uf("rv_isnil", SBool, v)))
+		if c, ok := args[1].(*Closure); ok {
+			e.makeFuncs[v.S] = c
+			r.checkClosureRequires(st, fr, c, nil, in, "MakeFunc")
+		}
+		st.assume(Not(Eq(uf("rv_iface", SAny, v), NilOf(SAny))))
+		return done(v)
+	case "reflect.FuncOf":
+		in0, ok1 := args[0].(*SliceV)
+		out0, ok2 := args[1].(*SliceV)
+		t := e.freshConst("rt_funcof", SAny)
+		st.assume(Not(Eq(t, NilOf(SAny))))
+		st.assume(Eq(kindOf(t), IntLit(19)))
+		if ok1 {
+			i := T{"i!q", SInt}
+			safe("FuncOf.in", Forall([]T{i}, nil, Implies(And(App(SBool, "<=", IntLit(0), i), App(SBool, "<", i, in0.Len)), Not(Eq(in0.at(i), NilOf(SAny))))), "reflect.FuncOf: no nil parameter Type")
+			st.assume(Eq(uf("rt_numin", SInt, t), in0.Len))
+		}
+		if ok2 {
+			i := T{"i!q", SInt}
+			safe("FuncOf.out", Forall([]T{i}, nil, Implies(And(App(SBool, "<=", IntLit(0), i), App(SBool, "<", i, out0.Len)), Not(Eq(out0.at(i), NilOf(SAny))))), "reflect.FuncOf: no nil result Type")
+			st.assume(Eq(uf("rt_numout", SInt, t), out0.Len))
+		}
+		return done(t)
+	case "reflect.Append":
+		return done(e.freshConst("rv_append", vs))
+	// ------------------------------------------------------------ Type (interface) methods
+	case "(reflect.Type).Kind":
+		t := typ(recv)
+		safe("Type.nilrecv", Not(Eq(t, NilOf(SAny))), "method call on a non-nil reflect.Type")
+		return done(r.fromInt(kindOf(t), sig.Results().At(0).Type()))
+	case "(reflect.Type).NumIn", "(reflect.Type).NumOut", "(reflect.Type).IsVariadic":
+		t := typ(recv)
+		safe("Type.nilrecv", Not(Eq(t, NilOf(SAny))), "method call on a non-nil reflect.Type")
+		safe("Type.func", Eq(kindOf(t), IntLit(19)), "NumIn/NumOut/IsVariadic on a func Type")
+		switch name {
+		case "(reflect.Type).NumIn":
+			n := uf("rt_numin", SInt, t)
+			st.assume(App(SBool, ">=", n, IntLit(0)))
+			return done(intRes(n))
+		case "(reflect.Type).NumOut":
+			n := uf("rt_numout", SInt, t)
+			st.assume(App(SBool, ">=", n, IntLit(0)))
+			return done(intRes(n))
+		}
+		v := uf("rt_variadic", SBool, t)
+		// a variadic func type has at least one parameter and its last parameter is a slice
+		n := uf("rt_numin", SInt, t)
+		last := uf("rt_in", SAny, t, App(SInt, "-", n, IntLit(1)))
+		st.assume(Implies(v, And(App(SBool, ">=", n, IntLit(1)), Eq(kindOf(last), IntLit(23)), Not(Eq(last, NilOf(SAny))), Not(Eq(uf("rt_elem", SAny, last), NilOf(SAny))))))
+		return done(v)
+	case "(reflect.Type).In", "(reflect.Type).Out":
+		t := typ(recv)
+		i := r.toInt(e.asTerm(args[0], e.sortOf(types.Typ[types.Int])), types.Typ[types.Int])
+		safe("Type.nilrecv", Not(Eq(t, NilOf(SAny))), "method call on a non-nil reflect.Type")
+		cnt, fn := "rt_numin", "rt_in"
+		if name == "(reflect.Type).Out" {
+			cnt, fn = "rt_numout", "rt_out"
+		}
+		safe("Type.index", And(Eq(kindOf(t), IntLit(19)), App(SBool, "<=", IntLit(0), i), App(SBool, "<", i, uf(cnt, SInt, t))), "In/Out index in range on a func Type")
+		res := uf(fn, SAny, t, i)
+		st.assume(Not(Eq(res, NilOf(SAny))))
+		return done(res)
+	case "(reflect.Type).Elem":
+		t := typ(recv)
+		safe("Type.nilrecv", Not(Eq(t, NilOf(SAny))), "method call on a non-nil reflect.Type")
+		k := kindOf(t)
+		safe("Type.Elem", Or(Eq(k, IntLit(17)), Eq(k, IntLit(18)), Eq(k, IntLit(21)), Eq(k, IntLit(22)), Eq(k, IntLit(23))), "Type.Elem on array, chan, map, pointer or slice")
+		res := uf("rt_elem", SAny, t)
+		st.assume(Not(Eq(res, NilOf(SAny))))
+		return done(res)
+	case "(reflect.Type).AssignableTo":
+		t := typ(recv)
+		u := typ(args[0])
+		safe("Type.nilrecv", Not(Eq(t, NilOf(SAny))), "method call on a non-nil reflect.Type")
+		safe("Type.AssignableTo", Not(Eq(u, NilOf(SAny))), "AssignableTo a non-nil Type")
+		return done(uf("rt_assignable", SBool, t, u))
+	case "(reflect.Type).ChanDir":
+		t := typ(recv)
+		safe("Type.nilrecv", Not(Eq(t, NilOf(SAny))), "method call on a non-nil reflect.Type")
+		safe("Type.ChanDir", Eq(kindOf(t), IntLit(18)), "ChanDir on a chan Type")
+		return done(r.fromInt(uf("rt_chandir", SInt, t), sig.Results().At(0).Type()))
+	case "(reflect.Type).String":
+		return done(e.freshConst("str", SStr))
+	// ------------------------------------------------------------ Value methods
+	case "(reflect.Value).IsValid":
+		return done(uf("rv_valid", SBool, e.asTerm(recv, vs)))
+	case "(reflect.Value).Type":
+		v := e.asTerm(recv, vs)
+		safe("Value.Type", uf("rv_valid", SBool, v), "Value.Type on a valid Value")
+		t := uf("rv_type", SAny, v)
+		st.assume(Not(Eq(t, NilOf(SAny))))
+		return done(t)
 	case "(reflect.Value).Interface":
 		v := e.asTerm(recv, vs)
-		e.safety(st, fr, in, "rvvalid", uf("rv_valid", SBool, v), "reflect.Value.Interface on a valid Value at "+e.posOf(in))
+		safe("Value.Interface", uf("rv_valid", SBool, v), "Value.Interface on a valid Value")
 		return done(uf("rv_iface", SAny, v))
 	case "(reflect.Value).Kind":
 		v := e.asTerm(recv, vs)
-		k := uf("rv_kind", e.sortOf(sig.Results().At(0).Type()), v)
-		return done(k)
-	case "(reflect.Value).TryRecv":
+		return done(r.fromInt(vkind(v), sig.Results().At(0).Type()))
+	case "(reflect.Value).IsNil":
 		v := e.asTerm(recv, vs)
+		safe("Value.IsNil", nilable(vkind(v)), "Value.IsNil on a chan, func, interface, map, pointer or slice Value")
+		return done(uf("rv_isnil", SBool, v))
+	case "(reflect.Value).Elem":
+		v := e.asTerm(recv, vs)
+		k := vkind(v)
+		safe("Value.Elem", Or(Eq(k, IntLit(20)), Eq(k, IntLit(22))), "Value.Elem on an interface or pointer Value")
+		el := uf("rv_elem", vs, v)
+		st.assume(Eq(uf("rv_valid", SBool, el), Not(uf("rv_isnil", SBool, v))))
+		st.assume(Implies(Eq(k, IntLit(22)), And(Eq(uf("rv_type", SAny, el), uf("rt_elem", SAny, uf("rv_type", SAny, v))), Eq(uf("rv_canset", SBool, el), uf("rv_valid", SBool, el)))))
+		return done(el)
+	case "(reflect.Value).Set":
+		v := e.asTerm(recv, vs)
+		x := e.asTerm(args[0], vs)
+		safe("Value.Set", And(uf("rv_canset", SBool, v), uf("rv_valid", SBool, x), uf("rt_assignable", SBool, uf("rv_type", SAny, x), uf("rv_type", SAny, v))), "Value.Set of a valid, assignable Value into a settable Value")
+		st.Counters["calls:rvset"] = App(SInt, "+", r.counter(st, "calls:rvset"), IntLit(1))
+		return done()
+	case "(reflect.Value).Call":
+		v := e.asTerm(recv, vs)
+		t := uf("rv_type", SAny, v)
+		argc := IntLit(0)
+		if sv, ok := args[0].(*SliceV); ok {
+			argc = sv.Len
+		}
+		n := uf("rt_numin", SInt, t)
+		arity := Ite(uf("rt_variadic", SBool, t), App(SBool, ">=", argc, App(SInt, "-", n, IntLit(1))), Eq(argc, n))
+		safe("Value.Call", And(uf("rv_valid", SBool, v), Eq(kindOf(t), IntLit(19)), Not(uf("rv_isnil", SBool, v)), arity), "Value.Call of a non-nil func Value with matching arity")
+		st.Counters["rvcalls"] = App(SInt, "+", r.counter(st, "rvcalls"), IntLit(1))
+		res := e.freshVal(st, sig.Results().At(0).Type(), "rv_callres")
+		if sv, ok := res.(*SliceV); ok {
+			st.assume(Eq(sv.Len, uf("rt_numout", SInt, t)))
+		}
+		return done(res)
+	case "(reflect.Value).TryRecv":
 		x := e.freshConst("tryrecv", vs)
 		ok := e.freshConst("tryrecv_ok", SBool)
 		st.assume(Implies(ok, uf("rv_valid", SBool, x)))
-		_ = v
 		return done(x, ok)
-	case "(reflect.Value).IsNil":
-		v := e.asTerm(recv, vs)
-		return done(uf("rv_isnil", SBool, v))
 	case "(reflect.Value).Pointer":
 		v := e.asTerm(recv, vs)
 		return done(uf("rv_pointer", e.sortOf(sig.Results().At(0).Type()), v))
